@@ -400,6 +400,10 @@ fn dump_fn_sig<'tcx>(tcx: TyCtxt<'tcx>, ldid: LocalDefId) -> J {
         ("exp", J::Bool(exp)),
         ("has_body", J::Bool(tcx.hir_maybe_body_owned_by(ldid).is_some())),
         ("cold", J::Bool(has_attr(tcx, did, "Cold"))),
+        (
+            "predicates",
+            J::Arr(tcx.predicates_of(did).predicates.iter().map(|(p, _)| s(p)).collect()),
+        ),
     ];
     if let Some((c, a)) = container {
         v.push(("container", s(dpath(tcx, c))));
